@@ -4,6 +4,14 @@
    Vocabulary (Spec/, independent of the code):
      enc_rows_body c tys r     what the master writes for rows definition r of a table with column
                                types tys (presence bitmaps, per row: NULL bitmap + cells)
+     padding                   every bitmap occupies ceil(n/8) bytes; the unused high bits of its last byte are
+                               whatever the master left there (MySQL: 1 in a row's NULL bitmap, 0 or 1 in a
+                               presence bitmap).  pack_bits_pad pad bits writes bit k of the byte `pad` into an
+                               unused bit k; the configuration carries one arbitrary byte per kind of bitmap
+                               (c_pad_cols, c_pad_null, c_pad_tm; wf_cfg only says they are bytes), and the
+                               image-level theorems quantify over the patterns pc (presence) and pn (NULL)
+                               directly.  expect_bitmap pad bits is the decoded bitmap: it keeps the wire bytes,
+                               so it names the pattern, but Bit i (i < n) and BitCount do not depend on it.
      image_cells tys img       the cells of one image (present, non-NULL columns only)
      expect_rows tys r         what a consumer must obtain: flags, presence bitmaps, per row the
                                NULL bitmaps and the image bytes
@@ -35,17 +43,18 @@ Theorem C09_rows_roundtrip : forall ffmt tz jsonp c v h cols tm r crc,
   tm_types tm = col_codes cols -> tm_meta tm = map (fun p => meta_of (fst p)) cols ->
   h_type h = rows_type c (rd_kind r) ->
   (do ev <- strip_checksum56 (expect_format c v) (enc_ev c h (enc_rows_body c (map fst cols) r) crc);
-   ev_rows (expect_format c v) tm ev) = Ok (expect_rows (map fst cols) r).
+   ev_rows (expect_format c v) tm ev) = Ok (expect_rows c (map fst cols) r).
 Proof. exact rows_roundtrip. Qed.
 Print Assumptions C09_rows_roundtrip.
 
-(* with the table map of C15 (nullability irrelevant), for tables without DECIMAL / JSON columns: unconditional *)
-Theorem C09_rows_roundtrip_proved : forall c v h cols t r crc,
+(* with the table map of C15 (nullability and the padding pt of its NULL bitmap irrelevant), for tables without
+   DECIMAL / JSON columns: unconditional *)
+Theorem C09_rows_roundtrip_proved : forall c v h cols pt t r crc,
   wf_cfg c = true -> proved_cols cols -> wf_rows_def cols r ->
   map fst (td_cols t) = map fst cols ->
   h_type h = rows_type c (rd_kind r) ->
   (do ev <- strip_checksum56 (expect_format c v) (enc_ev c h (enc_rows_body c (map fst cols) r) crc);
-   ev_rows (expect_format c v) (expect_table_map t) ev) = Ok (expect_rows (map fst cols) r).
+   ev_rows (expect_format c v) (expect_table_map pt t) ev) = Ok (expect_rows c (map fst cols) r).
 Proof. exact rows_roundtrip_proved. Qed.
 Print Assumptions C09_rows_roundtrip_proved.
 
@@ -59,35 +68,35 @@ Proof. exact rows_table_id. Qed.
 Print Assumptions C09_rows_table_id.
 
 (* ---- one image inside the row loop: NULL bitmap, then exactly the cells ---- *)
-Theorem C09_read_image : forall tm tys img,
+Theorem C09_read_image : forall pc pn tm tys img,
   tm_types tm = map code_of tys -> tm_meta tm = map meta_of tys -> Forall2 len_fine tys img ->
   forall pre rest,
-  read_image tm (expect_bitmap (present_bits img)) (length tys) (count_true (present_bits img))
-             (pre ++ enc_image tys img ++ rest) (length pre)
-  = Ok (expect_bitmap (null_bits img), image_cells tys img, (length pre + length (enc_image tys img))%nat).
+  read_image tm (expect_bitmap pc (present_bits img)) (length tys) (count_true (present_bits img))
+             (pre ++ enc_image pn tys img ++ rest) (length pre)
+  = Ok (expect_bitmap pn (null_bits img), image_cells tys img, (length pre + length (enc_image pn tys img))%nat).
 Proof. exact read_image_ok. Qed.
 Print Assumptions C09_read_image.
 
 (* ---- one image, column by column (get{Values,Identifies}FromRow) ---- *)
-Theorem C09_image_consumed : forall ffmt tz jsonp tm ti specs img rest,
+Theorem C09_image_consumed : forall pc pn ffmt tz jsonp tm ti specs img rest,
   family_cols ffmt tz jsonp (specs_cols specs) ->
   tm_types tm = map (fun s => code_of (cs_type s)) specs ->
   tm_meta tm = map (fun s => meta_of (cs_type s)) specs ->
   ti_cols ti = map (fun s => (cs_name s, cs_uns s)) specs ->
   wf_image (specs_cols specs) (present_bits img) img = true ->
-  image_of ffmt tz jsonp tm ti (expect_bitmap (present_bits img)) (expect_bitmap (null_bits img))
+  image_of ffmt tz jsonp tm ti (expect_bitmap pc (present_bits img)) (expect_bitmap pn (null_bits img))
            (Some (image_cells (map cs_type specs) img ++ rest))
   = Ok (Some (expect_columns ffmt tz specs img)).
 Proof. exact image_consumed. Qed.
 Print Assumptions C09_image_consumed.
 
-Theorem C09_image_consumed_proved : forall ffmt tz jsonp tm ti specs img rest,
+Theorem C09_image_consumed_proved : forall pc pn ffmt tz jsonp tm ti specs img rest,
   (forall v, -86400 <= tz v <= 86400) -> proved_cols (specs_cols specs) ->
   tm_types tm = map (fun s => code_of (cs_type s)) specs ->
   tm_meta tm = map (fun s => meta_of (cs_type s)) specs ->
   ti_cols ti = map (fun s => (cs_name s, cs_uns s)) specs ->
   wf_image (specs_cols specs) (present_bits img) img = true ->
-  image_of ffmt tz jsonp tm ti (expect_bitmap (present_bits img)) (expect_bitmap (null_bits img))
+  image_of ffmt tz jsonp tm ti (expect_bitmap pc (present_bits img)) (expect_bitmap pn (null_bits img))
            (Some (image_cells (map cs_type specs) img ++ rest))
   = Ok (Some (expect_columns ffmt tz specs img)).
 Proof. exact image_consumed_proved. Qed.
@@ -101,14 +110,14 @@ Proof. exact image_of_mismatch. Qed.
 Print Assumptions C09_image_mismatch.
 
 (* absent / NULL / value (including the empty value, Some []) are distinguishable and exclusive *)
-Theorem C09_three_way : forall ffmt tz jsonp tm ti specs img rest,
+Theorem C09_three_way : forall pc pn ffmt tz jsonp tm ti specs img rest,
   family_cols ffmt tz jsonp (specs_cols specs) ->
   tm_types tm = map (fun s => code_of (cs_type s)) specs ->
   tm_meta tm = map (fun s => meta_of (cs_type s)) specs ->
   ti_cols ti = map (fun s => (cs_name s, cs_uns s)) specs ->
   wf_image (specs_cols specs) (present_bits img) img = true ->
   exists cs,
-    image_of ffmt tz jsonp tm ti (expect_bitmap (present_bits img)) (expect_bitmap (null_bits img))
+    image_of ffmt tz jsonp tm ti (expect_bitmap pc (present_bits img)) (expect_bitmap pn (null_bits img))
              (Some (image_cells (map cs_type specs) img ++ rest)) = Ok (Some cs) /\
     Forall2 (fun cv col =>
                (cv = CAbsent <-> c_empty col = true) /\
@@ -140,20 +149,22 @@ Theorem C09_proved_families : forall ffmt tz jsonp, (forall v, -86400 <= tz v <=
 Proof. exact proved_families. Qed.
 Print Assumptions C09_proved_families.
 
-(* ---- bitmaps of any width ---- *)
-Theorem C09_bitmap_bit : forall bits i, (i < length bits)%nat ->
-  bit (expect_bitmap bits) i = Ok (nth i bits false).
+(* ---- bitmaps of any width, with any padding pattern in the unused bits of the last byte ---- *)
+Theorem C09_bitmap_bit : forall pad bits i, (i < length bits)%nat ->
+  bit (expect_bitmap pad bits) i = Ok (nth i bits false).
 Proof. exact bitmap_bit_ok. Qed.
 Print Assumptions C09_bitmap_bit.
 
-Theorem C09_bitmap_count : forall bits,
-  bit_count (expect_bitmap bits) = Ok (length (filter (fun b => b) bits)).
+(* BitCount counts the true bits among the n meaningful ones only: whatever the padding bits are, they
+   are not counted (a population count over the bytes would count them) *)
+Theorem C09_bitmap_count : forall pad bits,
+  bit_count (expect_bitmap pad bits) = Ok (length (filter (fun b => b) bits)).
 Proof. exact bitmap_count_ok. Qed.
 Print Assumptions C09_bitmap_count.
 
-Theorem C09_new_bitmap : forall pre bits rest,
-  new_bitmap (pre ++ pack_bits bits ++ rest) (length pre) (length bits)
-    = Ok (expect_bitmap bits, (length pre + (length bits + 7) / 8)%nat).
+Theorem C09_new_bitmap : forall pad pre bits rest,
+  new_bitmap (pre ++ pack_bits_pad pad bits ++ rest) (length pre) (length bits)
+    = Ok (expect_bitmap pad bits, (length pre + (length bits + 7) / 8)%nat).
 Proof. exact new_bitmap_ok. Qed.
 Print Assumptions C09_new_bitmap.
 
@@ -161,9 +172,27 @@ Theorem C09_pack_bits_length : forall bits, length (pack_bits bits) = ((length b
 Proof. exact pack_bits_length. Qed.
 Print Assumptions C09_pack_bits_length.
 
+(* what pack_bits_pad is: the same number of bytes; pattern 0 is the plain packing; the n meaningful bits are
+   C09_bitmap_bit; and the unused bits of the last byte really are the pattern's (so the quantification over
+   the pattern is not vacuous: the decoded bitmap does hold them, and Bit would return them if asked) *)
+Theorem C09_pack_bits_pad_length : forall pad bits, length (pack_bits_pad pad bits) = ((length bits + 7) / 8)%nat.
+Proof. exact pack_bits_pad_length. Qed.
+Print Assumptions C09_pack_bits_pad_length.
+
+Theorem C09_pack_bits_pad_0 : forall bits, pack_bits_pad 0 bits = pack_bits bits.
+Proof. exact pack_bits_pad_0. Qed.
+Print Assumptions C09_pack_bits_pad_0.
+
+Theorem C09_bitmap_bit_padding : forall pad bits i, (length bits <= i < 8 * ((length bits + 7) / 8))%nat ->
+  bit (expect_bitmap pad bits) i = Ok (Z.testbit pad (Z.of_nat (i mod 8))).
+Proof. exact bitmap_bit_padding. Qed.
+Print Assumptions C09_bitmap_bit_padding.
+
 (* ---- non-vacuity: a 10-column update, 2 rows, NULLs and absent columns in both images
         (different presence patterns for the before and the after image), v2 with extra data ---- *)
-Definition ex_cfg : cfg := {| c_crc := true; c_v2 := true; c_tid4 := false; c_hlen := 19; c_nsizes := 40 |}.
+(* padding as a MySQL master leaves it: 1s in the rows' NULL bitmaps and (after bitmap_set_all) in the presence bitmaps *)
+Definition ex_cfg : cfg := {| c_crc := true; c_v2 := true; c_tid4 := false; c_hlen := 19; c_nsizes := 40;
+                              c_pad_cols := 255; c_pad_null := 255; c_pad_tm := 0 |}.
 Definition ex_specs : list colspec :=
   [([105; 100], (TLong, false)); ([110; 97; 109; 101], (TVarchar 300 false, false)); ([113], (TTiny, true));
    ([98], (TBlob 2 252, false)); ([116; 115], (TDateTime2 3, false)); ([101], (TEnum 1 false, false));
@@ -193,22 +222,22 @@ Definition ex_jsonp (b : bytes) : res bytes := Err EJson.
 Definition ex_ti : tinfo := {| ti_name := ([100], [116]); ti_cols := map (fun s => (cs_name s, cs_uns s)) ex_specs |}.
 
 (* all column types except JSON (whose cells are C14): DECIMAL included *)
-Theorem C09_rows_roundtrip_all : forall c v h cols t r crc,
+Theorem C09_rows_roundtrip_all : forall c v h cols pt t r crc,
   wf_cfg c = true -> nonjson_cols cols -> wf_rows_def cols r ->
   map fst (td_cols t) = map fst cols ->
   h_type h = rows_type c (rd_kind r) ->
   (do ev <- strip_checksum56 (expect_format c v) (enc_ev c h (enc_rows_body c (map fst cols) r) crc);
-   ev_rows (expect_format c v) (expect_table_map t) ev) = Ok (expect_rows (map fst cols) r).
+   ev_rows (expect_format c v) (expect_table_map pt t) ev) = Ok (expect_rows c (map fst cols) r).
 Proof. exact rows_roundtrip_all. Qed.
 Print Assumptions C09_rows_roundtrip_all.
 
-Theorem C09_image_consumed_all : forall ffmt tz jsonp tm ti specs img rest,
+Theorem C09_image_consumed_all : forall pc pn ffmt tz jsonp tm ti specs img rest,
   (forall v, -86400 <= tz v <= 86400) -> nonjson_cols (specs_cols specs) ->
   tm_types tm = map (fun s => code_of (cs_type s)) specs ->
   tm_meta tm = map (fun s => meta_of (cs_type s)) specs ->
   ti_cols ti = map (fun s => (cs_name s, cs_uns s)) specs ->
   wf_image (specs_cols specs) (present_bits img) img = true ->
-  image_of ffmt tz jsonp tm ti (expect_bitmap (present_bits img)) (expect_bitmap (null_bits img))
+  image_of ffmt tz jsonp tm ti (expect_bitmap pc (present_bits img)) (expect_bitmap pn (null_bits img))
            (Some (image_cells (map cs_type specs) img ++ rest))
   = Ok (Some (expect_columns ffmt tz specs img)).
 Proof. exact image_consumed_all. Qed.
@@ -221,15 +250,70 @@ Example C09_update_10_columns :
   forallb (wf_image ex_cols (first_present (rd_after ex_rows) 10)) (rd_after ex_rows) = true /\
   (do ev <- strip_checksum56 (expect_format ex_cfg [])
               (enc_ev ex_cfg (ex_hdr (rows_type ex_cfg 1)) (enc_rows_body ex_cfg (map fst ex_cols) ex_rows) [9; 9; 9; 9]);
-   ev_rows (expect_format ex_cfg []) (expect_table_map ex_t) ev) = Ok (expect_rows (map fst ex_cols) ex_rows) /\
-  length (rs_rows (expect_rows (map fst ex_cols) ex_rows)) = 2%nat /\
-  image_of ex_ffmt ex_tz ex_jsonp (expect_table_map ex_t) ex_ti
-           (expect_bitmap (present_bits ex_a1)) (expect_bitmap (null_bits ex_a1))
+   ev_rows (expect_format ex_cfg []) (expect_table_map 0 ex_t) ev) = Ok (expect_rows ex_cfg (map fst ex_cols) ex_rows) /\
+  length (rs_rows (expect_rows ex_cfg (map fst ex_cols) ex_rows)) = 2%nat /\
+  image_of ex_ffmt ex_tz ex_jsonp (expect_table_map 0 ex_t) ex_ti
+           (expect_bitmap 255 (present_bits ex_a1)) (expect_bitmap 255 (null_bits ex_a1))
            (Some (image_cells (map cs_type ex_specs) ex_a1))
     = Ok (Some (expect_columns ex_ffmt ex_tz ex_specs ex_a1)) /\
   map (fun col => (c_empty col, c_data col)) (firstn 5 (expect_columns ex_ffmt ex_tz ex_specs ex_a1))
     = [(false, Some [55]); (false, Some [104; 105]); (true, None); (false, Some []); (false, None)].
 Proof. repeat match goal with |- _ /\ _ => split end; vm_compute; reflexivity. Qed.
+
+(* ---- non-vacuity of the padding: the same 10-column update (10 and the per-image counts of present columns,
+        5 / 3 / 8 / 8, of the before images are not multiples of 8; partial images) written with padding bits set.  The padding is on the
+        wire and in the decoded bitmaps; a population count over the bytes would see 14 present columns
+        instead of 8; the decoded rows and the delivered cells are the same for every pattern tried. ---- *)
+Definition ex_cfg_pad (pc pn : Z) : cfg :=
+  {| c_crc := true; c_v2 := true; c_tid4 := false; c_hlen := 19; c_nsizes := 40; c_pad_cols := pc; c_pad_null := pn; c_pad_tm := 0 |}.
+Definition ex_decode (c : cfg) : res rows :=
+  do ev <- strip_checksum56 (expect_format c [])
+             (enc_ev c (ex_hdr (rows_type c 1)) (enc_rows_body c (map fst ex_cols) ex_rows) [9; 9; 9; 9]);
+  ev_rows (expect_format c []) (expect_table_map 0 ex_t) ev.
+(* the observable content of a decoded bitmap: its width and its meaningful bits *)
+Definition ex_bits (b : bitmap) : nat * list (res bool) := (bm_count b, map (bit b) (seq 0 (bm_count b))).
+Definition ex_row_view (r : row) := (ex_bits (r_null_ident r), r_ident r, ex_bits (r_null_data r), r_data r).
+Definition ex_view (x : res rows) :=
+  match x with
+  | Ok rs => Some (rs_flags rs, ex_bits (rs_ident_cols rs), ex_bits (rs_data_cols rs), map ex_row_view (rs_rows rs))
+  | _ => None
+  end.
+
+Example C09_padding_bits_set :
+  (* on the wire *)
+  pack_bits_pad 0 (present_bits ex_a1) = [251; 2] /\ pack_bits_pad 255 (present_bits ex_a1) = [251; 254] /\
+  pack_bits_pad 165 (present_bits ex_a1) = [251; 166] /\
+  pack_bits_pad 0 (null_bits ex_b2) = [25] /\ pack_bits_pad 255 (null_bits ex_b2) = [249] /\
+  pack_bits_pad 255 (null_bits ex_b1) = [226] /\ pack_bits_pad 255 (null_bits ex_a1) = [72] /\
+  length (null_bits ex_b1) = 5%nat /\ length (null_bits ex_b2) = 5%nat /\
+  (* in the decoded bitmaps; BitCount ignores it *)
+  bit (expect_bitmap 255 (present_bits ex_a1)) 12 = Ok true /\ bit (expect_bitmap 0 (present_bits ex_a1)) 12 = Ok false /\
+  bit_count (expect_bitmap 255 (present_bits ex_a1)) = Ok 8%nat /\
+  fold_right (fun b acc => (length (filter (Z.testbit b) (map Z.of_nat (seq 0 8))) + acc)%nat) 0%nat
+             (pack_bits_pad 255 (present_bits ex_a1)) = 14%nat /\
+  (* the event decodes to the expected rows for each pattern (the theorem's conclusion, computed) *)
+  forallb (fun p => wf_cfg (ex_cfg_pad (fst p) (snd p))) [(0, 0); (255, 255); (0, 255); (255, 0); (165, 90)] = true /\
+  ex_decode (ex_cfg_pad 255 255) = Ok (expect_rows (ex_cfg_pad 255 255) (map fst ex_cols) ex_rows) /\
+  ex_decode (ex_cfg_pad 0 255) = Ok (expect_rows (ex_cfg_pad 0 255) (map fst ex_cols) ex_rows) /\
+  ex_decode (ex_cfg_pad 165 90) = Ok (expect_rows (ex_cfg_pad 165 90) (map fst ex_cols) ex_rows) /\
+  (* the wire bytes differ, the decoded content does not *)
+  enc_rows_body (ex_cfg_pad 255 255) (map fst ex_cols) ex_rows <> enc_rows_body (ex_cfg_pad 0 0) (map fst ex_cols) ex_rows /\
+  ex_view (ex_decode (ex_cfg_pad 255 255)) = ex_view (ex_decode (ex_cfg_pad 0 0)) /\
+  ex_view (ex_decode (ex_cfg_pad 165 90)) = ex_view (ex_decode (ex_cfg_pad 0 0)) /\
+  ex_view (ex_decode (ex_cfg_pad 0 0)) <> None /\
+  (* and the cells delivered from an image are the same whatever the patterns *)
+  image_of ex_ffmt ex_tz ex_jsonp (expect_table_map 255 ex_t) ex_ti
+           (expect_bitmap 255 (present_bits ex_b1)) (expect_bitmap 255 (null_bits ex_b1))
+           (Some (image_cells (map cs_type ex_specs) ex_b1))
+    = Ok (Some (expect_columns ex_ffmt ex_tz ex_specs ex_b1)) /\
+  image_of ex_ffmt ex_tz ex_jsonp (expect_table_map 0 ex_t) ex_ti
+           (expect_bitmap 165 (present_bits ex_b1)) (expect_bitmap 90 (null_bits ex_b1))
+           (Some (image_cells (map cs_type ex_specs) ex_b1))
+    = Ok (Some (expect_columns ex_ffmt ex_tz ex_specs ex_b1)).
+Proof.
+  repeat match goal with |- _ /\ _ => split end;
+    try (vm_compute; reflexivity); try (vm_compute; discriminate).
+Qed.
 
 (* the hypotheses of the theorems hold for it *)
 Example C09_update_10_columns_wf : proved_cols ex_cols /\ wf_rows_def ex_cols ex_rows.
